@@ -7,6 +7,8 @@
 //!         byte-identical to the old table with the returned `ht` pages applied, whenever every diff names every slot in
 //!         which the page differs from its bucket's old content; in general it equals the write-out on every meta byte,
 //!         on the label / elided-children field and on every named slot, and keeps the OLD byte elsewhere;
+//!   (i')  C04: with any random subset of the returned pages already written (a crash in the middle of `write_ht`), the REAL
+//!         `recover` gives the completed write-out;
 //!   (ii)  C17: only buckets of changed pages and meta pages of changed buckets are in the `ht` list; the buckets written
 //!         hold no other stored page; redo touches nothing else either;
 //!   (iii) C19: `occupied_buckets` = `full_count()` = number of stored pages of a BTreeMap oracle;
@@ -830,6 +832,34 @@ fn one_sync(r: &mut Rng, out: &mut Sink, ctx: &SyncCtx, sim: &mut Option<Prepare
         }
         Ok(Err(e)) => out.fail(format!("C03 recovery of the WAL of prepare_sync fails: {e:#} {tag}")),
         Err(_) => out.fail(format!("C03 recovery of the WAL of prepare_sync panics {tag}")),
+    }
+    // ---------------------------------------------------------------- (i') a crash in the middle of the write-out: any subset of the
+    // returned pages already on disk (4 KiB pages atomic), then the REAL recover: must give the completed write-out
+    if covering && !ht.is_empty() && r.chance(1, 2) && t.n <= 1024 {
+        let mut part = img0.clone();
+        let mut taken = 0;
+        for (pn, p) in ht {
+            if r.chance(1, 2) {
+                let pn = *pn as usize;
+                part[pn * PAGE..(pn + 1) * PAGE].copy_from_slice(p);
+                taken += 1;
+            }
+        }
+        std::fs::write(format!("{}/ht", ctx.dir), &part).unwrap();
+        std::fs::write(format!("{}/wal", ctx.dir), &run.wal).unwrap();
+        let htf = std::fs::OpenOptions::new().read(true).write(true).open(format!("{}/ht", ctx.dir)).unwrap();
+        let wf = std::fs::OpenOptions::new().read(true).write(true).open(format!("{}/wal", ctx.dir)).unwrap();
+        let (n32, seed2) = (t.n as u32, t.seed);
+        match catch_unwind(AssertUnwindSafe(move || open_and_recover(seqn, n32, seed2, htf, wf))) {
+            Ok(Ok(())) => {
+                let got = std::fs::read(format!("{}/ht", ctx.dir)).unwrap();
+                if got != exp {
+                    out.fail(format!("C04 recovery after a partial write-out ({taken} of {} pages on disk) does not give the completed write-out {tag}", ht.len()));
+                }
+                out.count("partial_writeout_recovered");
+            }
+            _ => out.fail(format!("C04 recovery after a partial write-out fails {tag}")),
+        }
     }
     // ---------------------------------------------------------------- (ii) C17: the ht list names only what changed
     let upd_buckets: BTreeMap<usize, usize> = changes.iter().enumerate().filter(|(_, c)| !c.cleared()).filter_map(|(i, _)| buckets[i].map(|b| (b, i))).collect();
